@@ -98,6 +98,12 @@ structure World where
   graphs : List GraphS := []
   tensors : List (Option String) := []
   locked : List Bool := []
+  /-- per graph: names the name authority learned from ownership edits and renames
+  (`register_value_name`, repo commit d1d56a4); the authority's seen set is `vNames ++ extra` -/
+  extra : List (List String) := []
+  /-- ghost: how many times a primitive of a mutation phase found its own check failing (Python: a
+  `raise` / `assert` reached after the first write).  Not part of the IR state; see `bump`, `guardOp`. -/
+  late : Nat := 0
   deriving DecidableEq, Repr
 
 instance : Inhabited World := ⟨{}⟩
@@ -118,9 +124,50 @@ def setNode (w : World) (n : Nat) (x : NodeS) : World := { w with nodes := lset 
 def setGr (w : World) (g : Nat) (x : GraphS) : World := { w with graphs := lset w.graphs g x }
 end World
 
-/-- the shape of every public call: reject (world untouched) or mutate -/
+/-- the value's const tensor refuses to be renamed (a `TensorProtocol` object with a read-only name) -/
+def constLocked (w : World) (v : Nat) : Bool :=
+  match (w.val v).const with
+  | some t => lget w.locked t
+  | none => false
+
+/-- the value can receive a generated name: it has a name already, or its tensor accepts renaming
+(the probe of proposed fix D85, done in the validation phase of every call that names values) -/
+def valNamable (w : World) (v : Nat) : Bool := !(decide ((w.val v).name = none) && constLocked w v)
+
+def addName (seen : List String) (s : String) : List String := if seen.contains s then seen else s :: seen
+
+/-- `NameAuthority.register_value_name(name)` of graph `g` -/
+def noteName (w : World) (g : Nat) (s : Option String) : World :=
+  match s with
+  | some nm => { w with extra := lset w.extra g (addName (lget w.extra g) nm) }
+  | none => w
+
+/-- `Value.graph`: the owning graph, else the producer's graph -/
+def ownerOf (w : World) (v : Nat) : Option Nat :=
+  match (w.val v).graph with
+  | some g => some g
+  | none =>
+    match (w.val v).producer with
+    | some n => (w.node n).graph
+    | none => none
+
+/-- end of the `Value.name` setter: the owner's authority learns the new name -/
+def noteOwner (w : World) (v : Nat) (s : Option String) : World :=
+  match ownerOf w v with
+  | some g => noteName w g s
+  | none => w
+
+/-- a primitive of a mutation phase whose own check fails does nothing and records the fact: in the
+Python this is a `raise` (or failing `assert`) that comes after earlier writes of the same call -/
+def bump (w : World) : World := { w with late := w.late + 1 }
+
+/-- the shape of every public call: the up-front validation rejects (world untouched), or the
+mutation phase runs; a check that fails inside the mutation phase makes the call raise as well — with
+whatever was written before it (that this never happens after a passed validation is theorem
+`C01_mutation_faithful`, from which `C06_atomic` follows) -/
 def guardOp (bad : Bool) (kind : String) (w w' : World) : World × Outcome :=
-  if bad then (w, .raised kind) else (w', .ok)
+  if bad then (w, .raised kind)
+  else if w'.late = w.late then (w', .ok) else (w', .raised "late-check")
 
 /-! ## Primitives on uses / inputs  (`_core.py:3182-3194`, `2385-2398`) -/
 
@@ -140,7 +187,7 @@ def setInput (w : World) (n i : Nat) (nv : Option Nat) : World :=
     match nv with
       | some x => w2.setVal x { w2.val x with uses := addUse (w2.val x).uses (n, i) }
       | none => w2
-  else w
+  else bump w
 
 /-- `Node.replace_input_with` (`_core.py:2385-2398`) -/
 def replaceInput (w : World) (n : Nat) (idx : Int) (nv : Option Nat) : World × Outcome :=
@@ -149,7 +196,7 @@ def replaceInput (w : World) (n : Nat) (idx : Int) (nv : Option Nat) : World × 
 /-- drop the last input slot (detach it first) -/
 def popInput (w : World) (n : Nat) : World :=
   let len := (w.node n).inputs.length
-  if len = 0 then w else
+  if len = 0 then bump w else
     let w1 := setInput w n (len - 1) none
     w1.setNode n { w1.node n with inputs := (w1.node n).inputs.dropLast }
 
@@ -173,7 +220,7 @@ def attachOutput (w : World) (n v : Nat) : World :=
   if r.producer = none ∧ r.isIn = false ∧ r.isInit = false then
     let w1 := w.setVal v { r with producer := some n, index := some ((w.node n).outputs.length : Int) }
     w1.setNode n { w1.node n with outputs := (w1.node n).outputs ++ [v] }
-  else w
+  else bump w
 
 /-- allocate a blank value -/
 def allocVal (w : World) (x : ValueS) : World × Nat :=
@@ -186,12 +233,12 @@ def addOutput (w : World) (n : Nat) : World :=
 /-- detach the last output (guard: it has no uses): producer `None`, index `-1` -/
 def detachLast (w : World) (n : Nat) : World :=
   match (w.node n).outputs.getLast? with
-  | none => w
+  | none => bump w
   | some v =>
     if (w.val v).uses = [] then
       let w1 := w.setVal v { w.val v with producer := none, index := some (-1) }
       w1.setNode n { w1.node n with outputs := (w1.node n).outputs.dropLast }
-    else w
+    else bump w
 
 /-- `Node.resize_outputs` (`_core.py:2455-2492`).  Python slicing: a negative `new_size` denotes
 `max (len + new_size) 0`.  Shrinking is rejected when a dropped output still has uses. -/
@@ -206,7 +253,12 @@ def resizeOutputs (w : World) (n : Nat) (k : Int) : World × Outcome :=
 
 /-- `Value(name=…)` (`_core.py:3034-3090`); `Value(producer=…, index=…)` is outside the alphabet -/
 def newValue (w : World) (name : Option String) : World × Outcome :=
-  ((allocVal w { name := name }).1, .ok)
+  guardOp false "" w (allocVal w { name := name }).1
+
+/-- first occurrences, in order (`frozenset` / `dict.fromkeys` of node or position lists) -/
+def dedup : List Nat → List Nat
+  | [] => []
+  | a :: l => a :: (dedup l).filter (· ≠ a)
 
 def enumFrom {α : Type} : Nat → List α → List (Nat × α)
   | _, [] => []
@@ -286,7 +338,7 @@ def checkIO (w : World) (g : Nat) (k : IOKind) (v : Nat) : Bool :=
 def setIO (w : World) (g : Nat) (k : IOKind) (v : Nat) : World :=
   let r := w.gr g
   let w1 := w.setGr g (setIoCnt k r (lset (ioCnt k r) v (lget (ioCnt k r) v + 1)))
-  w1.setVal v (setIoFlag k { w1.val v with graph := some g } true)
+  noteName (w1.setVal v (setIoFlag k { w1.val v with graph := some g } true)) g (w.val v).name
 
 /-- `_maybe_unset_graph`: counter; flag and owning graph only when the last reference goes -/
 def unsetIO (w : World) (g : Nat) (k : IOKind) (v : Nat) : World :=
@@ -304,12 +356,12 @@ def ioInsert (w : World) (g : Nat) (k : IOKind) (pos v : Nat) : World :=
   if checkIO w g k v then
     let w1 := setIO w g k v
     w1.setGr g (setIoList k (w1.gr g) (insertAt (ioList k (w1.gr g)) pos v))
-  else w
+  else bump w
 
 /-- guarded primitive: take the element at `pos` out and release it -/
 def ioRemoveAt (w : World) (g : Nat) (k : IOKind) (pos : Nat) : World :=
   match (ioList k (w.gr g))[pos]? with
-  | none => w
+  | none => bump w
   | some v =>
     let w1 := w.setGr g (setIoList k (w.gr g) ((ioList k (w.gr g)).eraseIdx pos))
     unsetIO w1 g k v
@@ -354,8 +406,10 @@ def sliceIndices (len : Nat) (start stop step : Option Int) : Option SliceIx :=
     let n : Nat :=
       if st < 0 then (if b < a then ((a - b - 1) / (-st) + 1).toNat else 0)
       else (if a < b then ((b - a - 1) / st + 1).toNat else 0)
-    some { start := a.toNat, stop := (if b < a then a else b).toNat, step1 := decide (st = 1),
-           pos := (List.range n).map (fun (j : Nat) => (a + (j : Int) * st).toNat) }
+    -- `min … len`, `filter (· < len)`, `dedup` change nothing for the positions Python computes (they are
+    -- distinct indices of the list); they make that fact visible to the proofs
+    some { start := min a.toNat len, stop := min (if b < a then a else b).toNat len, step1 := decide (st = 1),
+           pos := dedup (((List.range n).map (fun (j : Nat) => (a + (j : Int) * st).toNat)).filter (· < len)) }
 
 /-- insert the values `vs` at consecutive positions starting at `pos` -/
 def ioInsertMany (w : World) (g : Nat) (k : IOKind) (pos : Nat) (vs : List Nat) : World :=
@@ -389,7 +443,7 @@ inductive IOMut where
 def atPos (o : Option Nat) (f : Nat → World) (w : World) : World :=
   match o with
   | some p => f p
-  | none => w
+  | none => bump w
 
 /-- every mutator of `_GraphIO` (`_graph_containers.py:58-165`, after the validate-first fixes): the
 rejecting condition, then the mutation -/
@@ -405,7 +459,7 @@ def ioMut (w : World) (g : Nat) (k : IOKind) : IOMut → World × Outcome
   | .remove v =>
     let p := (ioList k (w.gr g)).idxOf? v
     guardOp p.isNone "ValueError" w (atPos p (ioRemoveAt w g k) w)
-  | .clear => (iter (fun w => ioRemoveAt w g k 0) (ioList k (w.gr g)).length w, .ok)
+  | .clear => guardOp false "" w (iter (fun w => ioRemoveAt w g k 0) (ioList k (w.gr g)).length w)
   | .setItem i v =>
     let p := normIndex (ioList k (w.gr g)).length i
     guardOp (p.isNone || !checkIO w g k v) "IndexError|ValueError" w
@@ -415,7 +469,8 @@ def ioMut (w : World) (g : Nat) (k : IOKind) : IOMut → World × Outcome
     | none => (w, .raised "ValueError")
     | some ix =>
       guardOp (!vs.all (checkIO w g k) || (!ix.step1 && decide (ix.pos.length ≠ vs.length))) "ValueError" w
-        (if ix.step1 then ioInsertMany (ioRemoveMany w g k ((List.range (ix.stop - ix.start)).map (· + ix.start))) g k ix.start vs
+        (if ix.step1 then
+           ioInsertMany (iter (fun w => ioRemoveAt w g k ix.start) (ix.stop - ix.start) w) g k ix.start vs
          else ioReplaceMany w g k ix.pos vs)
   | .delItem i =>
     let p := normIndex (ioList k (w.gr g)).length i
@@ -423,8 +478,8 @@ def ioMut (w : World) (g : Nat) (k : IOKind) : IOMut → World × Outcome
   | .delSlice start stop step =>
     match sliceIndices (ioList k (w.gr g)).length start stop step with
     | none => (w, .raised "ValueError")
-    | some ix => (ioRemoveMany w g k ix.pos, .ok)
-  | .reverse => (ioReverse w g k, .ok)
+    | some ix => guardOp false "" w (ioRemoveMany w g k ix.pos)
+  | .reverse => guardOp false "" w (ioReverse w g k)
   | .iadd _ => (w, .raised "RuntimeError")
   | .imul _ => (w, .raised "RuntimeError")
 
@@ -439,12 +494,10 @@ def uniqueLoop (mk : Nat → String) (seen : List String) : Nat → Nat → Stri
   | 0, c => (mk c, c + 1)
   | fuel + 1, c => if seen.contains (mk c) then uniqueLoop mk seen fuel (c + 1) else (mk c, c + 1)
 
-def addName (seen : List String) (s : String) : List String := if seen.contains s then seen else s :: seen
-
 /-- plain `Value.name = s` for a value that is not an initializer (`_core.py:3220-3226`): the const
 tensor is renamed as well -/
 def setNamePlain (w : World) (v : Nat) (s : Option String) : World :=
-  let w1 := w.setVal v { w.val v with name := s }
+  let w1 := noteOwner (w.setVal v { w.val v with name := s }) v s
   match (w.val v).const with
   | none => w1
   | some t => { w1 with tensors := lset w1.tensors t s }
@@ -455,9 +508,10 @@ def registerValue (w : World) (g v : Nat) : World :=
   | some s => w.setGr g { w.gr g with vNames := addName (w.gr g).vNames s }
   | none =>
     let r := w.gr g
-    let (s, c) := uniqueLoop valName r.vNames (r.vNames.length + 1) r.vCtr
+    let seen := r.vNames ++ lget w.extra g
+    let (s, c) := uniqueLoop valName seen (seen.length + 1) r.vCtr
     let w1 := w.setGr g { r with vCtr := c, vNames := addName r.vNames s }
-    if (w.val v).isInit then w1 else setNamePlain w1 v (some s)
+    if (w.val v).isInit || constLocked w v then bump w1 else setNamePlain w1 v (some s)
 
 /-- `register_or_name_node` (`_name_authority.py:65-72`) -/
 def registerNode (w : World) (g n : Nat) : World :=
@@ -472,12 +526,6 @@ def registerNode (w : World) (g n : Nat) : World :=
 
 def falsy (s : Option String) : Bool := s = none || s = some ""
 
-/-- the value's const tensor refuses to be renamed -/
-def constLocked (w : World) (v : Nat) : Bool :=
-  match (w.val v).const with
-  | some t => lget w.locked t
-  | none => false
-
 def lookupInit (l : List (String × Nat)) (k : String) : Option Nat := (l.find? (fun p => p.1 = k)).map (·.2)
 
 /-- dict assignment: an existing key keeps its position -/
@@ -490,7 +538,7 @@ def dictDel (l : List (String × Nat)) (k : String) : List (String × Nat) := l.
 def initOK (w : World) (g : Nat) (key : String) (v : Nat) : Bool :=
   let r := w.val v
   key ≠ "" && (falsy r.name || r.name = some key) && r.producer = none &&
-    (r.graph = none || r.graph = some g) && (!falsy r.name || !r.isInit)
+    (r.graph = none || r.graph = some g) && (!falsy r.name || (!r.isInit && !constLocked w v))
 
 /-- `_maybe_unset_graph` of the initializer mapping -/
 def unsetInit (w : World) (v : Nat) : World :=
@@ -500,7 +548,7 @@ def unsetInit (w : World) (v : Nat) : World :=
 /-- guarded primitive: `del initializers[key]` -/
 def initDel (w : World) (g : Nat) (key : String) : World :=
   match lookupInit (w.gr g).inits key with
-  | none => w
+  | none => bump w
   | some old => (unsetInit w old).setGr g { w.gr g with inits := dictDel (w.gr g).inits key }
 
 /-- guarded primitive: body of `initializers[key] = v`: name an unnamed value after the key, release
@@ -512,8 +560,8 @@ def initPut (w : World) (g : Nat) (key : String) (v : Nat) : World :=
       | some old => unsetInit w1 old
       | none => w1
     let w3 := w2.setVal v { w2.val v with isInit := true, graph := some g }
-    w3.setGr g { w3.gr g with inits := dictSet (w3.gr g).inits key v }
-  else w
+    noteName (w3.setGr g { w3.gr g with inits := dictSet (w3.gr g).inits key v }) g (some key)
+  else bump w
 
 inductive InitMut where
   | setItem (key : String) (v : Nat)
@@ -547,7 +595,7 @@ def initUpdate (w : World) (g : Nat) (kvs : List (String × Nat)) : World × Out
 def withName (o : Option String) (f : String → World) (w : World) : World :=
   match o with
   | some s => f s
-  | none => w
+  | none => bump w
 
 def initMut (w : World) (g : Nat) : InitMut → World × Outcome
   | .setItem key v => initSetItem w g key v
@@ -562,8 +610,8 @@ def initMut (w : World) (g : Nat) : InitMut → World × Outcome
   | .popitem =>
     guardOp (w.gr g).inits.isEmpty "KeyError" w
       (withName ((w.gr g).inits.head?.map (·.1)) (fun k => initDel w g k) w)
-  | .clear => (iter (fun w => withName ((w.gr g).inits.head?.map (·.1)) (fun k => initDel w g k) w)
-      (w.gr g).inits.length w, .ok)
+  | .clear => guardOp false "" w
+      (iter (fun w => withName ((w.gr g).inits.head?.map (·.1)) (fun k => initDel w g k) w) (w.gr g).inits.length w)
   | .update kvs => initUpdate w g kvs
   | .setdefault key v =>
     let present := (lookupInit (w.gr g).inits key).isSome
@@ -600,6 +648,11 @@ def setName (w : World) (v : Nat) (s : Option String) : World × Outcome :=
 
 def nodeAddable (w : World) (g n : Nat) : Bool := (w.node n).graph = none || (w.node n).graph = some g
 
+/-- `_check_node_can_be_added` (with the D85 probe): the node is free or already in `g`, and every
+output that is going to receive a generated name can take one -/
+def nodeAcceptable (w : World) (g n : Nat) : Bool :=
+  nodeAddable w g n && (w.node n).outputs.all (valNamable w)
+
 def insertAfter (l : List Nat) (anchor : Option Nat) (x : Nat) : List Nat :=
   match anchor with
   | none => x :: l
@@ -618,13 +671,13 @@ def nodeLink (w : World) (g : Nat) (anchor : Option Nat) (n : Nat) : World :=
   if nodeAddable w g n then
     (w.setNode n { w.node n with graph := some g }).setGr g
       { w.gr g with nodes := linkAfter (w.gr g).nodes anchor n }
-  else w
+  else bump w
 
 /-- guarded primitive: take `n` out of `g` -/
 def nodeUnlink (w : World) (g n : Nat) : World :=
   if (w.node n).graph = some g then
     (w.setNode n { w.node n with graph := none }).setGr g { w.gr g with nodes := (w.gr g).nodes.erase n }
-  else w
+  else bump w
 
 /-- the naming half of `_set_node_graph_to_self_and_assign_names` -/
 def assignNames (w : World) (g n : Nat) : World :=
@@ -635,7 +688,7 @@ def linkMany (w : World) (g : Nat) (anchor : Option Nat) (ns : List Nat) : World
   (ns.foldl (fun (p : World × Option Nat) n => (nodeLink (assignNames p.1 g n) g p.2 n, some n)) (w, anchor)).1
 
 def graphAppend (w : World) (g n : Nat) : World × Outcome :=
-  guardOp (!nodeAddable w g n) "ValueError" w
+  guardOp (!nodeAcceptable w g n) "ValueError" w
     (nodeLink (assignNames w g n) g (w.gr g).nodes.getLast? n)
 
 /-- `Graph.extend` = one `append` per node after all have been checked -/
@@ -643,7 +696,7 @@ def extendMut (w : World) (g : Nat) (ns : List Nat) : World :=
   ns.foldl (fun w n => nodeLink (assignNames w g n) g (w.gr g).nodes.getLast? n) w
 
 def graphExtend (w : World) (g : Nat) (ns : List Nat) : World × Outcome :=
-  guardOp (!ns.all (nodeAddable w g)) "ValueError" w (extendMut w g ns)
+  guardOp (!ns.all (nodeAcceptable w g)) "ValueError" w (extendMut w g ns)
 
 def predOf (l : List Nat) (a : Nat) : Option Nat :=
   match l.idxOf? a with
@@ -651,10 +704,10 @@ def predOf (l : List Nat) (a : Nat) : Option Nat :=
   | _ => none
 
 def graphInsertAfter (w : World) (g a : Nat) (ns : List Nat) : World × Outcome :=
-  guardOp ((w.node a).graph ≠ some g || !ns.all (nodeAddable w g)) "ValueError" w (linkMany w g (some a) ns)
+  guardOp ((w.node a).graph ≠ some g || !ns.all (nodeAcceptable w g)) "ValueError" w (linkMany w g (some a) ns)
 
 def graphInsertBefore (w : World) (g a : Nat) (ns : List Nat) : World × Outcome :=
-  guardOp ((w.node a).graph ≠ some g || !ns.all (nodeAddable w g)) "ValueError" w
+  guardOp ((w.node a).graph ≠ some g || !ns.all (nodeAcceptable w g)) "ValueError" w
     (linkMany w g (predOf (w.gr g).nodes a) ns)
 
 /-- `_check_node_safe_to_remove` (`_core.py:3476-3509`) -/
@@ -668,14 +721,18 @@ def detachInputs (w : World) (n : Nat) : World :=
 /-- `Graph.remove(nodes, safe=…)` (`_core.py:3869-3907`) -/
 def graphRemove (w : World) (g : Nat) (ns : List Nat) (safe : Bool) : World × Outcome :=
   guardOp (ns.any (fun n => (w.node n).graph ≠ some g || (safe && unsafeToRemove w g ns n))) "ValueError" w
-    (ns.foldl (fun w n => nodeUnlink (if safe then detachInputs w n else w) g n) w)
+    ((dedup ns).foldl (fun w n => nodeUnlink (if safe then detachInputs w n else w) g n) w)
 
 /-- `Graph.sort()` seen from the kernel: either a cycle is reported (nothing changes) or every
 involved graph is re-extended with a permutation of its own nodes (`_core.py:4036-4043`).  Which
-permutation is C12's subject; here it is an argument, and a list that is not a permutation of the
-graph's current sequence is ignored. -/
+permutation is C12's subject; here it is an argument; a list that is not a permutation of the graph's
+current sequence is not a possible result and is refused (`sortBad`). -/
+def sortBad (w : World) (orders : List (Nat × List Nat)) : Bool :=
+  orders.any (fun p => !p.2.isPerm (w.gr p.1).nodes || !p.2.all (nodeAcceptable w p.1))
+
 def sortApply (w : World) (orders : List (Nat × List Nat)) : World :=
-  orders.foldl (fun w p => if p.2.isPerm (w.gr p.1).nodes then extendMut w p.1 p.2 else w) w
+  orders.foldl (fun w p =>
+    if p.2.isPerm (w.gr p.1).nodes && p.2.all (nodeAcceptable w p.1) then extendMut w p.1 p.2 else w) w
 
 /-! ## Constructors with a graph -/
 
@@ -689,7 +746,7 @@ def newGraph (w : World) (inputs outputs nodes inits : List Nat) : World × Outc
   let g := w.graphs.length
   let bad := !inputs.all (checkIO w g .inp) || !outputs.all (checkIO w g .out) ||
     !(initDict w inits).all (fun p => initOK w g p.1 p.2) ||
-    !nodes.all (nodeAddable w g)
+    !nodes.all (nodeAcceptable w g) || !inputs.all (valNamable w)
   guardOp bad "ValueError" w <|
     let w0 := w.setGr g {}
     let w1 := ioInsertMany w0 g .inp 0 inputs
@@ -704,7 +761,8 @@ def newGraph (w : World) (inputs outputs nodes inits : List Nat) : World × Outc
 registration; a new node belongs to no graph, so it cannot be rejected -/
 def newNode (w : World) (opType : String) (name : Option String) (inputs : List (Option Nat))
     (numOutputs : Option Int) (outputs : Option (List Nat)) (graph : Option Nat) : World × Outcome :=
-  guardOp (newNodeBad w numOutputs outputs) "ValueError" w <|
+  guardOp (newNodeBad w numOutputs outputs ||
+      (graph.isSome && !(outputs.getD []).all (valNamable w))) "ValueError" w <|
     let n := w.nodes.length
     let w1 := newNodeMut w opType name inputs numOutputs outputs
     match graph with
@@ -730,8 +788,8 @@ name): `Value.name = …` then raises while renaming the backing tensor (`_core.
 anything was changed -/
 def setConst (w : World) (v : Nat) (locked : Bool) : World × Outcome :=
   let t := w.tensors.length
-  (({ w with tensors := lset w.tensors t none, locked := lset w.locked t locked }).setVal v
-    { w.val v with const := some t }, .ok)
+  guardOp false "" w (({ w with tensors := lset w.tensors t none, locked := lset w.locked t locked }).setVal v
+    { w.val v with const := some t })
 
 /-! ## The operation alphabet -/
 
@@ -755,6 +813,8 @@ inductive Op where
   | remove (g : Nat) (ns : List Nat) (safe : Bool)
   | sortOk (orders : List (Nat × List Nat))
   | sortCycle
+  /-- an edit of a node's attributes (`node.attributes[k] = …`): no kernel state is touched -/
+  | attrEdit
   deriving Repr
 
 def step (w : World) : Op → World × Outcome
@@ -774,8 +834,9 @@ def step (w : World) : Op → World × Outcome
   | .insertAfter g a ns => graphInsertAfter w g a ns
   | .insertBefore g a ns => graphInsertBefore w g a ns
   | .remove g ns safe => graphRemove w g ns safe
-  | .sortOk orders => (sortApply w orders, .ok)
-  | .sortCycle => (w, .raised "ValueError")
+  | .sortOk orders => guardOp (sortBad w orders) "model" w (sortApply w orders)
+  | .sortCycle => guardOp true "ValueError" w w
+  | .attrEdit => guardOp false "" w w
 
 /-! ## Composite editing calls  (`_convenience/__init__.py:281-548`) -/
 
@@ -835,10 +896,24 @@ def renameBad (w : World) (ips : List (Nat × String)) : Bool :=
       | none => true))
 
 def setNameIfPlain (w : World) (v : Nat) (s : Option String) : World :=
-  if (w.val v).isInit || (w.val v).name = s then w else setNamePlain w v s
+  if (w.val v).name = s then w else if (w.val v).isInit then bump w else setNamePlain w v s
 
-/-- `convenience.rename_values(values, names)`: validate the whole assignment, take the renamed
-initializers out of their mappings, rename, put them back (`_convenience/__init__.py:364-453`) -/
+/-- phase 1 of `rename_values`: a renamed initializer leaves its mapping (`graph.initializers.pop(value.name)`) -/
+def renameDelStep (w : World) (p : Nat × String) : World :=
+  match (w.val p.1).graph, (w.val p.1).name with
+  | some g, some old => initDel w g old
+  | _, _ => bump w
+
+/-- phase 3: it is put back under its new name (`graph.initializers.add(value)`) -/
+def renamePutStep (gOf : Nat → Option Nat) (w : World) (p : Nat × String) : World :=
+  match gOf p.1 with
+  | some g => initPut w g p.2 p.1
+  | none => bump w
+
+/-- `convenience.rename_values(values, names)`: validate the whole assignment (a backing tensor that
+refuses its new name is part of it: the code renames the tensors first and restores them on failure),
+take the renamed initializers out of their mappings, rename, put them back
+(`_convenience/__init__.py:364-470`) -/
 def renameValues (w : World) (vs : List Nat) (names : List String) : World × Outcome :=
   if vs.length ≠ names.length then (w, .raised "ValueError") else
   match dedupPairs [] (vs.zip names) with
@@ -847,13 +922,9 @@ def renameValues (w : World) (vs : List Nat) (names : List String) : World × Ou
     let ips := pairs.filter (fun p => (w.val p.1).isInit)
     guardOp (renameBad w ips ||
         pairs.any (fun p => constLocked w p.1 && decide ((w.val p.1).name ≠ some p.2))) "ValueError|AttributeError" w <|
-      let w1 := ips.foldl (fun w p => match (w.val p.1).graph, (w.val p.1).name with
-        | some g, some old => initDel w g old
-        | _, _ => w) w
+      let w1 := ips.foldl renameDelStep w
       let w2 := pairs.foldl (fun w p => setNameIfPlain w p.1 (some p.2)) w1
-      ips.foldl (fun w' p => match (w.val p.1).graph with
-        | some g => initPut w' g p.2 p.1
-        | none => w') w2
+      ips.foldl (renamePutStep (fun v => (w.val v).graph)) w2
 
 /-- `convenience.replace_nodes_and_values` (`_convenience/__init__.py:512-548`): copy const tensor and
 name onto the new values, reconnect users (graph outputs included), insert the new nodes, remove the
